@@ -281,6 +281,15 @@ def check(an: Analysis) -> None:
             ob.fail(cur, c, "type / default are not forwarded unchanged to ScopeState.state (or its result is not returned)")
         if "call:contextvars.ContextVar.get" not in Deps(prog, cur).origins(c.func.value):  # type: ignore[union-attr]
             ob.fail(cur, c, "the lookup is not made on the current ScopeState")
+        # what the lookup raises (MissingState, as C01.3 establishes) must pass the handlers around it untouched
+        from ..cfg import exc_is_sub
+
+        cn = next((n for n in gc.nodes if n.kind == "call" and n.ast is c), None)
+        for h in [t for t, lab in (cn.succ if cn is not None else []) if lab == "exc" and t.kind == "handler"]:
+            caught = [hc for hc in gc.handler_classes(h.ast) if exc_is_sub("MissingState", hc)]  # type: ignore[arg-type]
+            raised_ok = all(kind == "reraise" for kind, _n, _p in classify_handler(gc, h.ast))  # type: ignore[arg-type]
+            if caught and not raised_ok:
+                ob.fail(cur, h.ast, f"the handler around the lookup catches {caught}, which MissingState is a subclass of in this tree: a missing-state error inside a scope is reported as something else (MissingContext)")
 
     # ------------------------------------------------------------------ C01.7 disposables' state merged; built context is the one entered
     ob = an.ob("C01.7", "K5", "ScopeContext.__aenter__/__enter__ build the state context from self._state (+ the awaited Disposables.__aenter__() result) via StateContext.updated and enter that very context; StateContext.updated derives from the current ScopeState (fresh one only on LookupError)", ["context.access.ScopeContext.__aenter__", "context.access.ScopeContext.__enter__", f"{SC}.updated"])
